@@ -321,6 +321,17 @@ def check_local_params(ctx, f, lp):
             fin = [e for e in p.events if e.kind == 'test' and src(e.node).replace(' ', '') == 'np.isfinite(%s.getValue())' % pv]
             if fin and fin[0].info and 'allparams[pid]=%s.getValue()' % pv not in txt:
                 problems.append('a finite local value is not stored')
+        # the renaming happens whenever the id is already taken - by a global or by another reaction's local - whatever the values are
+        ren = [n for n in ast.walk(pl) if isinstance(n, ast.Call) and src(n.func) == 'kl.renameSIdRefs']
+        for c in ren:
+            st_ = c
+            while not isinstance(st_, ast.stmt):
+                st_ = st_._parent
+            g = sorted(x.replace(' ', '') for x in util.guards_of(st_, pl))
+            if g != ['pidinallparams']:
+                problems.append('the local parameter is renamed under %s, not whenever its id is already in use' % g)
+        if len(ren) != 1:
+            problems.append('%d renaming calls' % len(ren))
     ctx.ob('R13.4-local-parameters', 'rename-before-formula', not problems, where,
            'a colliding local parameter is renamed to id_reactionId in the kinetic law before the formula string is taken; its value is stored under the new id',
            '; '.join(sorted(set(problems))[:3]))
